@@ -171,6 +171,11 @@ class ClientAuthenticator:
                 self.sendAuthMessage(
                     b'ERROR ' + str(e).encode('unicode-escape'))
 
+        else:
+            # no challenge is expected by this mechanism: give it up, the
+            # server answers REJECTED and the next mechanism is tried
+            self.sendAuthMessage(b'CANCEL')
+
     def _auth_ERROR(self, line):
         if self.negotiatingUnixFD:
             # the server accepted us (OK) but does not support passing
